@@ -119,6 +119,16 @@ func (ucr *UnsignedChunkReader) Read(p []byte) (int, error) {
 		return 0, err
 	}
 
+	// Consume the underlying reader until EOF: nothing may follow the
+	// trailer, and the wrapped readers (request authentication) run their
+	// end of stream checks only once they have returned io.EOF.
+	if _, err := ucr.reader.ReadByte(); err != io.EOF {
+		if err == nil {
+			return 0, errMalformedEncoding
+		}
+		return 0, err
+	}
+
 	return ucr.offset, io.EOF
 }
 
